@@ -413,7 +413,19 @@ pub fn adss_scenario(case: &Value) -> Result<Option<String>, String> {
                 if v != e[i] { changed = true; }
                 e[i] = v;
             }
-            if !changed { e[lo as usize] ^= 1; }
+            if !changed && !c2["nofix"].as_bool().unwrap_or(false) { e[lo as usize] ^= 1; }
+            // multi-byte alterations: an xor pattern laid over the encoding from `fault_lo`
+            // (several bytes altered at once, e.g. by the same mask) and a swap of two bytes
+            let xs = if c2["xor"].is_string() { get_hex(&c2, "xor") } else { Vec::new() };
+            for (k, x) in xs.iter().enumerate() {
+                if lo as usize + k < e.len() { e[lo as usize + k] ^= x; }
+            }
+            if let (Some(a), Some(b)) = (c2["swap"][0].as_u64(), c2["swap"][1].as_u64()) {
+                if (a as usize) < e.len() && (b as usize) < e.len() {
+                    if e[a as usize] == e[b as usize] { return Ok(None); }
+                    e.swap(a as usize, b as usize);
+                }
+            }
             match adss::Share::from_bytes(&e) {
                 None => return Ok(None),
                 Some(f) => shares[0] = f,
